@@ -45,6 +45,28 @@ let parse_style (s : string) : ref_style =
   | _ -> failwith "style"
 let b01 s = s = "1"
 
+(* a name as it is spelled in an attribute value: "x<hex>" = the bytes, escaped the usual way
+   (Merge.esc_sp); "p" + pieces joined by '+': L<hex> literal bytes, N<cp> predefined entity,
+   D<cp>.<w> decimal / H<cp>.<w> lower-case hex / U<cp>.<w> upper-case hex character reference
+   with w digits.  The declared name is Merge.sp_value of the spelling. *)
+let parse_piece (t : string) : piece =
+  let body = String.sub t 1 (String.length t - 1) in
+  let cpw () = match String.split_on_char '.' body with
+    | [c; w] -> (nn c, nat_of_int (int_of_string w)) | _ -> failwith "piece" in
+  match t.[0] with
+  | 'L' -> PLit (bytes_of_hex body)
+  | 'N' -> PNamed (nn body)
+  | 'D' -> let (c, w) = cpw () in PDec (c, w)
+  | 'H' -> let (c, w) = cpw () in PHex (c, w, false)
+  | 'U' -> let (c, w) = cpw () in PHex (c, w, true)
+  | _ -> failwith "piece kind"
+let parse_spelling (t : string) : spelling =
+  match t.[0] with
+  | 'x' -> esc_sp (xs t)
+  | 'p' -> if String.length t = 1 then []
+    else List.map parse_piece (String.split_on_char '+' (String.sub t 1 (String.length t - 1)))
+  | _ -> failwith "spelling"
+
 (* ---------------------------------------------------------------- serialiser (trusted glue) *)
 let raw_of_bytes (l : BinNums.coq_N list) : string =
   let b = Buffer.create 64 in
@@ -136,9 +158,9 @@ let parse_xlsx (desc : string) : xcase =
       let rc = { rc_style = st; rc_lower = lower; rc_before = before; rc_after = after; rc_pad = pad } in
       upd (fun (s, a, b, c, d) -> (s, (((r0, c0), (r1, c1)), rc) :: a, b, c, d))
     | "TB" ->
-      let name = xs (next ()) in
+      let name_sp = parse_spelling (next ()) in
       let r0 = nn (next ()) in let c0 = nn (next ()) in let r1 = nn (next ()) in let c1 = nn (next ()) in
-      let hdr = nn (next ()) in let tot = nn (next ()) in
+      let hdr = nn (next ()) in let tot = nn (next ()) in let insrow = b01 (next ()) in
       let part = xs (next ()) in let rid = xs (next ()) in
       let target = (let t = next () in match t.[0] with
           | 'D' -> TgtDotDot | 'A' -> TgtAbsolute
@@ -150,15 +172,16 @@ let parse_xlsx (desc : string) : xcase =
       let rstyle = parse_style (next ()) in let rlower = b01 (next ()) in
       let hexp = b01 (next ()) in let texp = b01 (next ()) in
       let ins = (let t = next () in match t.[0] with
-          | '-' -> IrAbsent | '0' -> IrZero | 'f' -> IrFalse
+          | '-' -> IrAbsent | '0' -> IrZero | 'f' -> IrFalse | '1' -> IrOne | 't' -> IrTrue
           | _ -> IrRaw (xs (String.sub t 1 (String.length t - 1)))) in
       let extra = parse_attrs (next ()) in let cextra = parse_attrs (next ()) in
       let pfx = opt_xs (next ()) in let pre = parse_events (next ()) in
-      let cols = (let t = next () in if t = "-" then [] else List.map xs (String.split_on_char ',' t)) in
-      let tl = { tl_name = name; tl_cols = cols; tl_ref = ((r0, c0), (r1, c1)); tl_header = hdr; tl_totals = tot } in
+      let cols_sp = (let t = next () in if t = "-" then [] else List.map parse_spelling (String.split_on_char ',' t)) in
+      let tl = { tl_name = sp_value name_sp; tl_cols = List.map sp_value cols_sp; tl_ref = ((r0, c0), (r1, c1));
+                 tl_header = hdr; tl_totals = tot; tl_insert = insrow } in
       let tc = { tc_part = part; tc_rid = rid; tc_target = target; tc_type = typ; tc_target_first = tfirst;
                  tc_ref_style = rstyle; tc_ref_lower = rlower; tc_hdr_explicit = hexp; tc_tot_explicit = texp;
-                 tc_insert = ins; tc_extra = extra; tc_col_extra = cextra; tc_prefix = pfx; tc_pre = pre } in
+                 tc_insert = ins; tc_name_sp = name_sp; tc_cols_sp = cols_sp; tc_extra = extra; tc_col_extra = cextra; tc_prefix = pfx; tc_pre = pre } in
       upd (fun (s, a, b, c, d) -> (s, a, (tl, tc) :: b, c, d))
     | "CL" ->
       let r = nn (next ()) in let c = nn (next ()) in let v = nn (next ()) in
@@ -222,18 +245,22 @@ let spec_call (wb : sheet_e list) cells (c : string) : string =
      | Some s -> (match spec_sheet wb s.se_name with None -> "none" | Some s' -> dims_list (se_regions s')))
   | "allmerges" -> String.concat "/" (List.map region_str (spec_all_merges wb))
   | "mergesby" -> String.concat "/" (List.map region_str (merged_regions_by_sheet (spec_all_merges wb) (name 1)))
-  | "tables" -> String.concat "," (List.map hexb (table_names tabs))
-  | "tablesin" -> String.concat "," (List.map hexb (table_names_in_sheet tabs (name 1)))
+  | "tables" -> String.concat "," (List.map (fun t -> hexb (ts_name t)) tabs)
+  | "tablesin" ->
+    String.concat "," (List.map (fun t -> hexb (ts_name t))
+                         (List.filter (fun (((_, s), _), _) -> s = name 1) tabs))
   | "table" ->
-    (match get_table_meta tabs (name 1) with
-     | Ok (((n, s), cols), box) ->
+    (* the first declared table of that name *)
+    (match List.find_opt (fun t -> ts_name t = name 1) tabs with
+     | Some (((n, s), cols), box) ->
        let cl = (match List.find_opt (fun (sn, _) -> sn = s) cells with Some (_, l) -> l | None -> []) in
-       let rows = spec_table_rows cl box in
-       let ((a, b), (c, d)) = box in
-       let data = if rows = [] then "R[-]"
-         else Printf.sprintf "R[%s,%s,%s,%s|%s]" (show a) (show b) (show c) (show d) (rows_str rows) in
+       let data = (match box with
+           | None -> "R[-]"            (* no data rows: the empty range *)
+           | Some ((a, b), (c, d)) ->
+             Printf.sprintf "R[%s,%s,%s,%s|%s]" (show a) (show b) (show c) (show d)
+               (rows_str (spec_table_rows cl box))) in
        Printf.sprintf "%s|%s|%s|%s" (hexb n) (hexb s) (String.concat "," (List.map hexb cols)) data
-     | _ -> "err:other")
+     | None -> "err:other")
   | other -> "badcall:" ^ other
 
 let run_calls (f : string -> string) (calls : string) : string =
